@@ -45,8 +45,10 @@ class Stats:
 class Engine:
     def __init__(self, prefix=(), timeout_ms=20000, stats=None, persist=None):
         self.persist = persist if persist is not None else {'alts': {}, 'vals': {}}
-        self.solver = z3.Solver()
+        self.solver = z3.Solver()          # everything: assumptions + path condition (decides obligations)
         self.solver.set('timeout', timeout_ms)
+        self.fsolver = z3.Solver()         # feasibility of branches: path condition + the 'cheap' assumptions only
+        self.fsolver.set('timeout', timeout_ms)   # (an over-approximation of feasibility: sound, may explore vacuous paths)
         self.timeout_ms = timeout_ms
         self.decisions = list(prefix)
         self.nprefix = len(prefix)
@@ -65,7 +67,8 @@ class Engine:
         self.nfresh += 1
         return z3.Int(f'{name}!{self.nfresh}')
 
-    def assume(self, c):
+    def assume(self, c, feas=True):
+        """feas=False: constraint is used for obligations only, not for pruning branches (non-linear contract equations)."""
         if isinstance(c, SB):
             c = c.c
         if isinstance(c, (bool, np.bool_)):
@@ -74,6 +77,8 @@ class Engine:
             return
         self.constraints.append(c)
         self.solver.add(c)
+        if feas:
+            self.fsolver.add(c)
 
     def in_prefix(self):
         """True while decisions are still being replayed: obligations met here were already decided."""
@@ -82,10 +87,10 @@ class Engine:
     def _feasible(self, c):
         self.stats.feas_queries += 1
         t0 = time.time()
-        self.solver.push()
-        self.solver.add(c)
-        r = self.solver.check()
-        self.solver.pop()
+        self.fsolver.push()
+        self.fsolver.add(c)
+        r = self.fsolver.check()
+        self.fsolver.pop()
         self.stats.solver_s += time.time() - t0
         return r != z3.unsat   # unknown -> explore (sound for the verdict; obligations are decided separately)
 
@@ -113,6 +118,7 @@ class Engine:
         c = cond if taken else z3.Not(cond)
         self.constraints.append(c)
         self.solver.add(c)
+        self.fsolver.add(c)
         return taken
 
     # -- obligations
@@ -644,13 +650,13 @@ class SI:
                 continue
             eng.stats.feas_queries += 1
             t0 = time.time()
-            r = eng.solver.check()
+            r = eng.fsolver.check()
             eng.stats.solver_s += time.time() - t0
             if r != z3.sat:
                 if r == z3.unsat:
                     raise PathAbort('infeasible')
                 raise Inconclusive('unknown while enumerating an integer')
-            v = eng.solver.model().eval(e, model_completion=True).as_long()
+            v = eng.fsolver.model().eval(e, model_completion=True).as_long()
             eng.persist['vals'][key] = v
             if eng.branch(e == v):
                 return v
